@@ -141,7 +141,7 @@ def concretise(d, lang="yaql", form=0):
         if td.get("inputx"):
             ts["input"] = {"p": val_expr(lang, td["inputx"], form)}
         if td["join"] != 0:
-            ts["join"] = "all" if td["join"] == -1 else td["join"]
+            ts["join"] = "all" if td["join"] == -1 else (0 if td["join"] == -2 else td["join"])
         if td["delay"] != -1:
             ts["delay"] = td["delay"]
         if td.get("delayx"):
